@@ -18,7 +18,7 @@ ASSUMPTIONS = ['volatile formulas are not generated; Node-side number typing is 
                'cells that were already stale in the original engine (fresh recalculation disagrees) are charged to C05',
                'summary group-by columns have a concrete (non-Any) type']
 BUDGET = {'quick': dict(examples=900, shards=16, max_seconds=75),
-          'thorough': dict(examples=9000, shards=16, max_seconds=1800)}
+          'thorough': dict(examples=2600, shards=16, max_seconds=1800)}
 SHRINK_BUDGET = {'quick': 60, 'thorough': 400}
 
 
